@@ -98,10 +98,19 @@ where
     let sigma = f64::from_bits(u64f(c, "sigma"));
     let from: Vec<T> = fs(c, "from").into_iter().map(t).collect();
     let to: Vec<T> = fs(c, "to").into_iter().map(t).collect();
-    let p = IsotropicGaussian::new(t(sigma));
     let seed = u64f(c, "seed");
-    let mut a = IsotropicGaussian::new(t(sigma)).set_seed(seed);
-    let mut b = IsotropicGaussian::new(t(sigma)).set_seed(seed);
+    // optionally: constructed with another standard deviation, then the public field is reassigned
+    let mk = || match c["sigma0"].as_u64() {
+        Some(b0) => {
+            let mut q = IsotropicGaussian::new(t(f64::from_bits(b0)));
+            q.std = t(sigma);
+            q
+        }
+        None => IsotropicGaussian::new(t(sigma)),
+    };
+    let p = mk();
+    let mut a = mk().set_seed(seed);
+    let mut b = mk().set_seed(seed);
     let da: Vec<u64> = (0..3).flat_map(|_| a.sample(&from).into_iter().map(f).collect::<Vec<_>>()).collect();
     let db: Vec<u64> = (0..3).flat_map(|_| b.sample(&from).into_iter().map(f).collect::<Vec<_>>()).collect();
     // sample statistics of (to - from)/sigma for the law check
